@@ -32,18 +32,51 @@ class Piece:
         return repr(self.const) if self.const is not None else "<%s>" % self.term
 
 
+def _as_membership(cond):
+    """cond as (x, R) meaning `x in R` for a plain string variable x: in_re facts, x == constant, and disjunctions of
+    those about the same variable (the simplifier turns `x in ("" | R)` into `x == "" or x in R`)"""
+    if z3.is_app(cond) and cond.decl().kind() == z3.Z3_OP_SEQ_IN_RE:
+        x, R = cond.children()
+        if z3.is_const(x) and x.decl().kind() == z3.Z3_OP_UNINTERPRETED:
+            return (x, R)
+        return None
+    if z3.is_eq(cond):
+        a, b = cond.children()
+        if z3.is_int_value(a):
+            a, b = b, a
+        if z3.is_int_value(b) and b.as_long() == 0 and z3.is_app(a) and a.decl().kind() == z3.Z3_OP_SEQ_LENGTH:
+            x = a.arg(0)
+            if z3.is_const(x) and x.decl().kind() == z3.Z3_OP_UNINTERPRETED:
+                return (x, z3.Re(strval("")))
+            return None
+        if z3.is_string_value(a):
+            a, b = b, a
+        if z3.is_string_value(b) and z3.is_const(a) and a.decl().kind() == z3.Z3_OP_UNINTERPRETED and z3.is_string(a):
+            return (a, z3.Re(b))
+        return None
+    if z3.is_or(cond):
+        parts = [_as_membership(c) for c in cond.children()]
+        if parts and all(pt is not None for pt in parts) and all(pt[0].eq(parts[0][0]) for pt in parts):
+            R = parts[0][1]
+            for pt in parts[1:]:
+                R = z3.Union(R, pt[1])
+            return (parts[0][0], R)
+    return None
+
+
 def record_class_fact(p, cond):
     """called by core.assume: remember `x in R` facts about plain string variables"""
     try:
-        if z3.is_app(cond) and cond.decl().kind() == z3.Z3_OP_SEQ_IN_RE:
-            x, R = cond.children()
-            if z3.is_const(x) and x.decl().kind() == z3.Z3_OP_UNINTERPRETED:
-                d = p.ghost.setdefault("classes", {})
-                old = d.get(x.get_id())
-                d[x.get_id()] = R if old is None else z3.Intersect(old, R)
-        elif z3.is_and(cond):
+        if z3.is_and(cond):
             for c in cond.children():
                 record_class_fact(p, c)
+            return
+        mem = _as_membership(cond)
+        if mem is not None:
+            x, R = mem
+            d = p.ghost.setdefault("classes", {})
+            old = d.get(x.get_id())
+            d[x.get_id()] = R if old is None else z3.Intersect(old, R)
     except Exception:
         pass
 
@@ -328,6 +361,71 @@ def replace_all_char(pieces, old, new):
         else:
             out.append(Piece(const=pc.const.replace(old, new)))
     return out
+
+
+def slice_const_edges(pieces, start, stop):
+    """s[start:stop] with constant bounds (start >= 0 counted from the left, stop <= 0 counted from the right, None = open)
+    when the characters cut off lie in constant pieces at the two ends: the remaining pieces; UNKNOWN otherwise"""
+    ps = list(pieces)
+    a = start or 0
+    b = -(stop or 0)
+    if a < 0 or b < 0:
+        return UNKNOWN
+    while a > 0:
+        if not ps or ps[0].const is None:
+            return UNKNOWN
+        c = ps[0].const
+        if len(c) <= a:
+            a -= len(c)
+            ps.pop(0)
+        else:
+            ps[0] = Piece(const=c[a:])
+            a = 0
+    while b > 0:
+        if not ps or ps[-1].const is None:
+            return UNKNOWN
+        c = ps[-1].const
+        if len(c) <= b:
+            b -= len(c)
+            ps.pop()
+        else:
+            ps[-1] = Piece(const=c[:len(c) - b])
+            b = 0
+    return ps
+
+
+def split_char(pieces, sep):
+    """s.split(sep) for a single character: exact when no symbolic piece can contain sep; UNKNOWN otherwise"""
+    if len(sep) != 1:
+        return UNKNOWN
+    fields = [[]]
+    for pc in pieces:
+        if pc.const is None:
+            if avoids_chars(pc.regex, sep) is not True:
+                return UNKNOWN
+            fields[-1].append(pc)
+            continue
+        parts = pc.const.split(sep)
+        for j, part in enumerate(parts):
+            if j > 0:
+                fields.append([])
+            if part:
+                fields[-1].append(Piece(const=part))
+    return fields
+
+
+def contains_char(pieces, ch):
+    """`ch in s` for a single character: True / False / UNKNOWN"""
+    if len(ch) != 1:
+        return UNKNOWN
+    maybe = False
+    for pc in pieces:
+        if pc.const is None:
+            if avoids_chars(pc.regex, ch) is not True:
+                maybe = True
+        elif ch in pc.const:
+            return True
+    return UNKNOWN if maybe else False
 
 
 def split_ws_once(pieces, ws):
